@@ -8,6 +8,7 @@ from . import tracefmt as tf
 from . import world as W
 from .framework import result, emu_verdict, ihash, list_chunks
 from .prv import Pvt, PrvError
+from .prng import Rng
 
 CAT = W.CATALOGUE
 BOUNDARY_LABELS = [x["label"] for x in __import__("json").load(open(os.path.join(os.path.dirname(os.path.abspath(__file__)), "..", "data", "boundary_labels.json")))["labels"]]
@@ -109,12 +110,19 @@ def gen_world_desc(rng, nlooms=(1, 2), ncpus=(1, 4), nprocs=(1, 2), nthreads=(1,
         for l in looms:
             l["skew"] = hs[l["name"].split(".")[0]]
     d = {"looms": looms, "models": list(models), "marks": marks or {}}
+    if models and rng.chance(12):
+        # each model is required by only some of the threads (possibly not by the last one, possibly not by the one using it)
+        d["require_split"] = rng.u64()
+    if rng.chance(5):
+        # event-less streams that belong to no thread (ovni.part != "thread": tolerated with a warning)
+        d["foreign"] = rng.u64()
     return d
 
 
 def build_world(desc):
     w = W.World()
     w.models = list(desc["models"])
+    w.require_split = desc.get("require_split")
     for k, v in desc.get("marks", {}).items():
         w.mark_types[int(k)] = {"title": v["title"], "stack": v["stack"],
                                 "labels": {int(a): b for a, b in v.get("labels", {}).items()}}
@@ -702,6 +710,10 @@ class Gen:
                 bad = (pre == "active" and not th.active) or (pre == "running" and not th.running)
                 if not bad or not PUSHES[m]:
                     continue
+                if IGNS[m] and r.chance(30):
+                    # events that change no timeline are bound to the model's thread state like all others
+                    self.emit(th, r.choice(IGNS[m]))
+                    return True
                 top = None
                 mcv, ch, label = r.choice(PUSHES[m])
                 st = th.chan[(m, ch)]
@@ -888,14 +900,16 @@ def run_machine_case(case, ctx, keys_filter=None, post=None, extra_flags=(), on_
                 lines.append("%-10d %-20s %-20d %-19.3f %.3f\n" % (n, h, -sk, float(-sk), 2.0))
             extra["clock-offsets.txt"] = "".join(lines).encode()
             info_skew = True
-        tf.write_trace(tdir, streams, order=case.get("order"), extra_files=extra)
+        foreign = tf.foreign_paths(Rng(case["world"]["foreign"]), streams) if case["world"].get("foreign") else None
+        tf.write_trace(tdir, streams, order=case.get("order"), extra_files=extra, foreign=foreign)
         flags = (["-l"] if case.get("lint") else []) + list(case.get("emuflags", [])) + list(extra_flags)
         status, out, err = ctx.run_tool("ovniemu", flags + [tdir])
         verdict = emu_verdict(status, err)
         exp, why = m.end_verdict()
         info = {"sim_ns": m.now, "size": len(case["actions"]), "ihash": ihash(case["actions"]), "verdict": "%s/%s" % (exp, verdict),
                 "states": sorted(map(str, m.states_seen)), "faults": case.get("faults", {}),
-                "probes": dict(case.get("probes", {}), **({"looms with skewed clocks + offset table": 1} if extra else {}))}
+                "probes": dict(case.get("probes", {}), **({"looms with skewed clocks + offset table": 1} if extra else {}),
+                               **({"event-less stream of a non-thread part present": 1} if foreign else {}))}
         sample = {"world": w.describe(), "n_actions": len(case["actions"]),
                   "first_actions": [[a[0], a[1], a[2]] for a in case["actions"][:12]],
                   "expected": exp, "reason": why, "emulator": verdict}
